@@ -1658,6 +1658,31 @@ class Mask(Elemwise):
     _defaults = {"other": np.nan}
     operation = M.mask
 
+    def _simplify_up(self, parent, dependents):
+        if isinstance(parent, Projection) and any(
+            isinstance(op, Expr) and op.ndim == 2 for op in (self.cond, self.other)
+        ):
+            # ``cond`` / ``other`` are DataFrames: they have to be projected
+            # together with ``frame`` (a Series cannot be masked by a DataFrame)
+            columns = determine_column_projection(self, parent, dependents)
+            if isinstance(columns, list):
+                columns = [col for col in self.frame.columns if col in columns]
+            if columns == self.frame.columns or self.frame.ndim < 2:
+                return
+            operands = []
+            for op in self.operands:
+                if isinstance(op, Expr) and op.ndim == 2:
+                    wanted = columns if isinstance(columns, list) else [columns]
+                    if not set(wanted) <= set(op.columns):
+                        return
+                    op = op[columns]
+                operands.append(op)
+            result = type(self)(*operands)
+            if columns == parent.operand("columns"):
+                return result
+            return type(parent)(result, parent.operand("columns"))
+        return Elemwise._simplify_up(self, parent, dependents)
+
 
 class Round(Elemwise):
     _projection_passthrough = True
@@ -1670,6 +1695,7 @@ class Where(Elemwise):
     _parameters = ["frame", "cond", "other"]
     _defaults = {"other": np.nan}
     operation = M.where
+    _simplify_up = Mask._simplify_up
 
 
 def _check_divisions(df, i, division_min, division_max, last):
